@@ -168,6 +168,10 @@ class PArr:
         return r
 
     def xor(self, other):
+        if isinstance(other, int) and not isinstance(other, bool):
+            if other == 0:
+                return self.copy()
+            return PArr(self.shape, [x ^ frozenset([('CONST', other)]) for x in self.flat])
         if not isinstance(other, PArr):
             raise Unknown('xor with a non array')
         shape = self.shape if len(self.flat) >= len(other.flat) else other.shape
